@@ -27,8 +27,12 @@ def run(ctx):
     R, D = (5, 4) if q else (6, 5)
     t = toastlat.run_tlc(ctx, R, D, 1, adm=True)
     S = 2 ** R
-    worstpix = 0.0
-    for csname, cs in toastlat.coordsystems():
+    box = {"worstpix": 0.0}
+
+    def work(csname, cs):
+        """The checks for one coordinate system, as a coroutine: it yields after every call into the library so that the
+        two coordinate systems can be interleaved call by call (state kept between calls must not leak across them)."""
+        worstpix = 0.0
         psi = toastlat.psi_for(t, csname)
         # ---- (a) every lattice point against TLC's admissible sets
         pts = sorted(t.adm)
@@ -61,6 +65,7 @@ def run(ctx):
                         except Exception as e:  # noqa
                             ctx.violation("C12:tile_for_point:raises", "toast_tile_for_point(%d, %.6f, %.6f, %s) raised %r" % (d, lat, lon0 + sh, csname, e), {"p": p, "cs": csname})
                             break
+                        yield
                         pos = tuple(tile.pos)
                         chain.append(pos)
                         ctx.distinct((csname, p, d))
@@ -89,6 +94,7 @@ def run(ctx):
             prev = None
             for d in sorted({1, 2, dmax // 2, dmax - 1, dmax}):
                 tile = toast.toast_tile_for_point(d, lat, lon, coordsys=cs)
+                yield
                 pos = tuple(tile.pos)
                 exp = (d, i >> (RR - d), j >> (RR - d))
                 ctx.count()
@@ -124,6 +130,7 @@ def run(ctx):
             except Exception as e:  # noqa
                 ctx.violation("C12:pixel_for_point:raises", "toast_pixel_for_point(%d, %.6f, %.6f, %s) raised %r" % (d, lat, lon, csname, e), {"cs": csname, "depth": d})
                 continue
+            yield
             exp = (d, i >> (RR - d), j >> (RR - d)) if d > 0 else (0, 0, 0)
             if tuple(tile.pos) != exp:
                 ctx.violation("C12:pixel_for_point:tile", "toast_pixel_for_point depth %d [%s]: tile %s, the cell holding the point is %s" % (d, csname, tuple(tile.pos), exp), {"cs": csname})
@@ -138,10 +145,19 @@ def run(ctx):
             r, c = np.unravel_index(np.argmax(g @ v), (256, 256))
             err = max(abs(float(x) - c), abs(float(y) - r))
             worstpix = max(worstpix, err)
+            box["worstpix"] = max(box["worstpix"], worstpix)
             ctx.distinct((csname, "pix", (i, j, RR), d))
             if not (err <= 2.0):
                 ctx.violation("C12:pixel_for_point:position", "depth %d [%s] lat %.5f lon %.5f: returned pixel (x %.2f, y %.2f), the nearest pixel centre is (col %d, row %d)"
                               % (d, csname, lat, lon, float(x), float(y), c, r), {"cs": csname, "depth": d, "lat": lat, "lon": lon})
+    gens = [work(n_, c_) for n_, c_ in toastlat.coordsystems()]
+    while gens:
+        for g in list(gens):
+            try:
+                next(g)
+            except StopIteration:
+                gens.remove(g)
+    worstpix = box["worstpix"]
     ctx.note("worst_pixel_error_px", worstpix)
     pmid = sorted(t.adm)[len(t.adm) // 2 + 3]
     ctx.sample({"lattice_point": list(pmid), "R": R, "admissible_by_depth": [sorted(s) for s in t.adm[pmid]]})
